@@ -18,7 +18,7 @@ COMMON_ASSUME = [
 
 PROPS = {
     "C02": {
-        "rules": ["R-IDGUARD", "R-ACCEPT", "R-ALPHAGUARD", "R-NOTFOUND", "R-SCANEXIT", "R-PURE-BASIC", "R-BYTEINDEX", "R-SENTINEL", "R-CMPEND"],
+        "rules": ["R-IDGUARD", "R-ACCEPT", "R-ALPHAGUARD", "R-NOTFOUND", "R-SCANEXIT", "R-PURE-BASIC", "R-BYTEINDEX", "R-SENTINEL", "R-CMPEND", "R-SCANLEN"],
         "explanation": "CFG edge-dominance rules: every use of the id in the 13 extract overrides is dominated by both range tests and the "
                        "failing path stores length 0 and returns NULL; in the six hash lookups an ID is returned only under a successful full "
                        "comparison, each probe is preceded by the occupied-cell test, the probe loop is bounded by the table size; XBW accepts only "
@@ -31,7 +31,8 @@ PROPS = {
                     "locate/extract keep no state between calls (R-PURE-BASIC)",
                     "tables indexed by an arbitrary byte value have >= 256 entries on every path that creates them, loaders included (R-BYTEINDEX)",
                     "the hash lookups' all-ones `not found` sentinel is produced at the width of their return type, so locate's `search()+1` wraps to NORESULT (R-SENTINEL)",
-                    "comparators that take the pattern length report a match only where the end of the pattern has been observed (R-CMPEND)"],
+                    "comparators that take the pattern length report a match only where the end of the pattern has been observed (R-CMPEND)",
+                    "the scans that derive the FM-index / XBW alphabet and maximum symbol cover exactly the sequence handed to the wavelet-tree builder (R-SCANLEN)"],
         "not_decided": ["that the comparison routines compare correctly", "reads inside decoders for absent strings in front-coded buckets (bounded only by run-time offsets)"],
         "assumptions": COMMON_ASSUME,
     },
@@ -54,7 +55,7 @@ PROPS = {
         "assumptions": COMMON_ASSUME,
     },
     "C05": {
-        "rules": ["R-DEDUP", "R-DUPSKIP", "R-SAMPLECOUNT", "R-STUB", "R-ALPHAGUARD", "R-PURE-SUBSTR", "R-EXTENT-FM", "R-STALESIZE"],
+        "rules": ["R-DEDUP", "R-DUPSKIP", "R-SAMPLECOUNT", "R-STUB", "R-ALPHAGUARD", "R-PURE-SUBSTR", "R-EXTENT-FM", "R-STALESIZE", "R-SCANLEN"],
         "explanation": "Only the de-duplication protocol and the configuration guard are decided: the occurrence array is sorted over exactly [a,a+n) "
                        "and carries the 0 sentinel at a[n] before a duplicate-skipping iterator is created, is allocated with n+1 entries, and the "
                        "BWTsampling==0 configuration is an effect-free stub.",
@@ -62,12 +63,13 @@ PROPS = {
                     "BWTsampling==0 guard first, stub region returns null (R-STUB)", "absent bytes are rejected before indexing (R-ALPHAGUARD)",
                     "locateSubstr/extractSubstr and the iterators they return write no dictionary state, static or borrowed memory (R-PURE-SUBSTR)",
                     "the FM-index tables (occ, alphabet, samples) are saved with the extent they are allocated with, so a loaded index is indexed within bounds like a built one (R-EXTENT-FM)",
-                    "iterator bounds taken from container.size() are not made stale by a later shrink of the container (R-STALESIZE)"],
+                    "iterator bounds taken from container.size() are not made stale by a later shrink of the container (R-STALESIZE)",
+                    "the scans that derive the FM-index / XBW alphabet and maximum symbol cover exactly the sequence handed to the wavelet-tree builder (R-SCANLEN)"],
         "not_decided": ["backward search, LF-walk and the position-to-ID mapping through the separator bitmap (value-level): the core of the property"],
         "assumptions": COMMON_ASSUME,
     },
     "C01": {
-        "rules": ["R-STATE", "R-INITCOVER", "R-MIRROR", "R-IDGUARD", "R-SELECTRANGE", "R-PROBE", "R-BUCKET", "R-FMMAP", "R-BYTEORDER", "R-PURE-BASIC", "R-SLOT", "R-CLAMP", "R-CMPSIGN", "R-BSEARCH", "R-SCANSIGN", "R-CHUNKINIT"],
+        "rules": ["R-STATE", "R-INITCOVER", "R-MIRROR", "R-IDGUARD", "R-SELECTRANGE", "R-PROBE", "R-BUCKET", "R-FMMAP", "R-BYTEORDER", "R-PURE-BASIC", "R-SLOT", "R-CLAMP", "R-CMPSIGN", "R-BSEARCH", "R-SCANSIGN", "R-CHUNKINIT", "R-SCANLEN"],
         "explanation": "The clause `for the freshly built object and the reloaded one alike` is decided structurally: for every kind and both "
                        "creation paths, every field read by a query on an object of a class that path instantiates (rapid type analysis, virtual "
                        "calls resolved to final overriders of instantiated classes) is assigned by code reachable from that creation path, pointer "
@@ -82,7 +84,8 @@ PROPS = {
                     "the build loop and the queries use the same (clamped) bucket size (R-CLAMP)",
                     "three-way string comparators are oriented one way on all their paths (sign polarity of the pattern bytes in every returned value, R-CMPSIGN)",
                     "binary searches move the bound the comparator's orientation dictates, and in-bucket scans give up only once the stored string is larger (R-BSEARCH, R-SCANSIGN)",
-                    "every chunk scan handed to the Huffman/Hu-Tucker chunk decoder starts from the same state as its siblings (R-CHUNKINIT)"],
+                    "every chunk scan handed to the Huffman/Hu-Tucker chunk decoder starts from the same state as its siblings (R-CHUNKINIT)",
+                    "the scans that derive the FM-index / XBW alphabet and maximum symbol cover exactly the sequence handed to the wavelet-tree builder (R-SCANLEN)"],
         "not_decided": ["that decoding inverts encoding for every string (Hu-Tucker, Huffman, Re-Pair, DAC, rank/select values)", "binary-search correctness",
                         "HHTFC / RPHTFC mis-decode small inputs even when reloaded (seen by triage probes replays/t_roundtrip.cpp; value-level, outside every rule)"],
         "assumptions": COMMON_ASSUME,
@@ -137,7 +140,7 @@ PROPS = {
         "assumptions": COMMON_ASSUME,
     },
     "C03": {
-        "rules": ["R-BUCKET", "R-FMMAP", "R-NOSORT", "R-BYTEORDER", "R-PURE-RANK", "R-CLAMP", "R-CMPSIGN", "R-BSEARCH", "R-SCANSIGN", "R-CMPEND"],
+        "rules": ["R-BUCKET", "R-FMMAP", "R-NOSORT", "R-BYTEORDER", "R-PURE-RANK", "R-CLAMP", "R-CMPSIGN", "R-BSEARCH", "R-SCANSIGN", "R-CMPEND", "R-SCANLEN"],
         "explanation": "Order preservation decided structurally: rank operations are the identity / delegate to extract in the seven order-preserving "
                        "kinds, ID arithmetic is consistent with consuming the input in order, FM-index row mapping agrees, and no builder of an "
                        "order-preserving kind reorders its input (no sort reachable on their build paths).",
@@ -147,7 +150,8 @@ PROPS = {
                     "the build loop and the queries use the same (clamped) bucket size, else IDs stop being ranks (R-CLAMP)",
                     "three-way string comparators are oriented one way on all their paths (sign polarity of the pattern bytes in every returned value, R-CMPSIGN)",
                     "binary searches move the bound the comparator's orientation dictates, and in-bucket scans give up only once the stored string is larger (R-BSEARCH, R-SCANSIGN)",
-                    "comparators that take the pattern length report a match only where the end of the pattern has been observed (R-CMPEND)"],
+                    "comparators that take the pattern length report a match only where the end of the pattern has been observed (R-CMPEND)",
+                    "the scans that derive the FM-index / XBW alphabet and maximum symbol cover exactly the sequence handed to the wavelet-tree builder (R-SCANLEN)"],
         "not_decided": ["the alphabetic property of Hu-Tucker codes (memcmp on encoded headers = string order) and suffix-array order (value-level)"],
         "assumptions": COMMON_ASSUME,
     },
